@@ -22,6 +22,7 @@ class Tracer:
         self.seq = 0
         self.prefix = "t"
         self.sink = None      # a warnings.catch_warnings(record=True) list, when the caller records
+        self.tee = False      # no caller-provided sink: tap warnings._showwarnmsg_impl during the call instead
 
     def obj_no(self, ro):
         k = id(ro)
@@ -56,6 +57,19 @@ class Tracer:
                 except Exception:  # noqa: BLE001 - not a message class we model
                     msg = None
                 n0 = len(tracer.sink) if tracer.sink is not None else 0
+                tapped = None
+                if tracer.sink is None and tracer.tee:
+                    # see every mosromgr warning the call emits, whatever recorder / filter the caller has installed:
+                    # the recorder still receives them (tee), mosromgr warnings are shown "always" for the duration
+                    tapped = []
+                    saved_impl = warnings._showwarnmsg_impl
+                    saved_filters = warnings.filters[:]
+
+                    def tee(msg, _saved=saved_impl, _t=tapped):
+                        _t.append(msg)
+                        return _saved(msg)
+                    warnings._showwarnmsg_impl = tee
+                    warnings.filterwarnings("always", category=exc.MosRoMgrWarning)
                 try:
                     res = orig(ro, other)
                     return res
@@ -63,6 +77,10 @@ class Tracer:
                     err = e
                     raise
                 finally:
+                    if tapped is not None:
+                        warnings._showwarnmsg_impl = saved_impl
+                        warnings.filters[:] = saved_filters
+                        warnings._filters_mutated()
                     if msg is not None:
                         target = res if (err is None and isinstance(res, mostypes.RunningOrder)) else ro
                         if err is None:
@@ -79,6 +97,8 @@ class Tracer:
                         if tracer.sink is not None:
                             warns = [w.category.__name__ for w in tracer.sink[n0:]
                                      if issubclass(w.category, exc.MosRoMgrWarning)]
+                        elif tapped is not None:
+                            warns = [w.category.__name__ for w in tapped if issubclass(w.category, exc.MosRoMgrWarning)]
                         tracer.seq += 1
                         try:
                             mid = other.message_id
@@ -88,8 +108,8 @@ class Tracer:
                             "id": "%s%d" % (tracer.prefix, tracer.seq), "obj": tracer.obj_no(target), "k": "merge",
                             "pre": pre, "msg": msg, "post": project.project_ro_xml(target.xml),
                             "status": status, "warns": warns, "ser_eq": str(ro) == before,
-                            "intact": True, "cls": "", "completed_eq": True, "mid": mid,
-                            "has_sink": tracer.sink is not None})
+                            "intact": True, "cls": "", "completed_eq": True, "acc_eq": True, "expose_intact": True, "mid": mid,
+                            "has_sink": tracer.sink is not None or tapped is not None})
             finally:
                 tracer.depth -= 1
 
